@@ -118,6 +118,8 @@ type polWorld struct {
 	dials  []int
 	conns  []*polPhys
 	nConns int
+	// armedLeft: see noteArmed
+	armedLeft bool
 }
 
 func (w *polWorld) takeDials() string {
@@ -148,11 +150,14 @@ func (w *polWorld) phys() int {
 	return n
 }
 
-func (w *polWorld) cut() {
+func (w *polWorld) cut(final bool) {
 	w.mu.Lock()
 	cs := append([]*polPhys(nil), w.conns...)
 	w.mu.Unlock()
 	for _, p := range cs {
+		if p.kind == 'S' && !final {
+			continue // a silent peer stays silent: it neither answers nor hangs up
+		}
 		w.mu.Lock()
 		was := p.serverClosed
 		p.serverClosed = true
@@ -349,8 +354,8 @@ func (r *polRun) local(l *listener.AbstractListener, msg string) (string, net.Co
 	app, loc := net.Pipe()
 	go l.HandleConnection(loc)
 	wait := r.wait
-	if r.blocked && wait > time.Second {
-		wait = time.Second
+	if r.blocked && wait > 300*time.Millisecond {
+		wait = 300 * time.Millisecond // the mutex is held for ever: nothing that needs it can come back
 	}
 	_ = app.SetDeadline(time.Now().Add(wait))
 	got, err := pingPong(app, msg)
@@ -383,7 +388,7 @@ func (r *polRun) close() {
 	for _, k := range r.kept {
 		_ = k.Close()
 	}
-	r.w.cut()
+	r.w.cut(true)
 	r.w.mu.Lock()
 	cs := append([]*polPhys(nil), r.w.conns...)
 	r.w.mu.Unlock()
@@ -461,12 +466,12 @@ func (r *polRun) step(ev byte) polStep {
 			note(o.who, o.app, true)
 		}
 	case 'x':
-		r.w.cut()
+		r.w.cut(false)
 	case 'r':
 		r.w.mu.Lock()
 		r.w.phase = 1
 		r.w.mu.Unlock()
-		r.w.cut()
+		r.w.cut(false)
 	case 'k':
 		r.ups.Shutdown() // asynchronous in the code: wait until it has run
 		if !r.blocked {
@@ -601,14 +606,22 @@ func polMonitor(ms bool, fwd string, scripts []string, hist string, steps []polS
 			return at + fmt.Sprintf("session intact but %d physical connections open", st.phys)
 		}
 	}
+	if w.armedLeft {
+		return "a deadline is left armed on an established physical connection"
+	}
+	return ""
+}
+
+// noteArmed records (before the run is torn down) whether an established, open physical connection
+// still has a deadline set: it would kill the session HandshakeTimeout after the handshake.
+func (w *polWorld) noteArmed() {
 	w.mu.Lock()
 	defer w.mu.Unlock()
 	for _, p := range w.conns {
 		if closed, armed := p.client.state(); p.established && !closed && armed {
-			return "a deadline is left armed on an established physical connection"
+			w.armedLeft = true
 		}
 	}
-	return ""
 }
 
 // ---------------------------------------------------------------- Exec / Gen
@@ -622,6 +635,7 @@ func polRunOnce(ms bool, fwd string, scripts []string, hist string, wait time.Du
 	var steps []polStep
 	for i := 0; i < len(hist); i++ {
 		steps = append(steps, r.step(hist[i]))
+		r.w.noteArmed()
 	}
 	return steps, r.w, r.blocked, nil
 }
@@ -651,9 +665,22 @@ func (policyComp) Exec(op string) (string, string, string, bool) {
 	if len(hist) == 0 || len(hist) > 24 || strings.Trim(hist, "cdu23xrkv") != "" {
 		return "bad-op", "", "bad", false
 	}
-	steps, w, blocked, err := polRunOnce(ms, fwd, scripts, hist, 4*time.Second)
-	if err == nil && blocked { // one retry with a longer deadline before calling anything blocked
-		steps, w, blocked, err = polRunOnce(ms, fwd, scripts, hist, 10*time.Second)
+	// blocked = neither served nor refused within 4 s, confirmed by a rerun with 10 s.  Once three ops
+	// have been confirmed blocked the tree evidently has no handshake deadline: go faster from there.
+	var steps []polStep
+	var w *polWorld
+	var blocked bool
+	var err error
+	if polBlockedOps >= 3 {
+		steps, w, blocked, err = polRunOnce(ms, fwd, scripts, hist, 700*time.Millisecond)
+	} else {
+		steps, w, blocked, err = polRunOnce(ms, fwd, scripts, hist, 4*time.Second)
+		if err == nil && blocked {
+			steps, w, blocked, err = polRunOnce(ms, fwd, scripts, hist, 10*time.Second)
+			if blocked {
+				polBlockedOps++
+			}
+		}
 	}
 	if err != nil {
 		return "fail:setup", err.Error(), "fail", false
@@ -673,41 +700,40 @@ func (policyComp) Exec(op string) (string, string, string, bool) {
 			multi = true
 		}
 	}
-	class := "fwd=" + fwd
-	if fwd != "ok" {
-		class = fmt.Sprintf("n=%d", len(scripts))
-		if multi {
-			class += ",failover"
-		}
-		if strings.ContainsAny(hist, "xr") {
-			class += ",loss"
-		}
-		if strings.ContainsAny(hist, "23") {
-			class += ",conc"
-		}
-		if strings.Contains(hist, "k") {
-			class += ",close"
-		}
-		if strings.Contains(hist, "u") {
-			class += ",unknown"
-		}
-		if served && failed {
-			class += ",mixed"
-		} else if failed {
-			class += ",allfail"
-		}
-		if blocked {
-			class += ",blocked"
-		}
-		if fwd != "-" {
-			class += ",fwd=" + fwd
-		}
-		if ms {
-			class += ",secure"
+	// class: list length, how the first new local connection fared, what the history contains
+	first := "none"
+	for _, st := range steps {
+		if len(st.who) > 0 {
+			switch w0 := st.who[0]; {
+			case w0 == "DD":
+				first = "direct"
+			case w0 == "B":
+				first = "blocked"
+			case w0 == "F":
+				first = "allfail"
+			case w0 == "U0":
+				first = "first"
+			default:
+				first = "failover"
+			}
+			break
 		}
 	}
+	class := fmt.Sprintf("n=%d %s", len(scripts), first)
+	if strings.ContainsAny(hist, "xr") {
+		class += "+loss"
+	}
+	if strings.ContainsAny(hist, "23") {
+		class += "+conc"
+	}
+	if strings.ContainsAny(hist, "ku") {
+		class += "+close/unknown"
+	}
+	_, _ = failed, multi
 	return strings.Join(toks, " "), polMonitor(ms, fwd, scripts, hist, steps, w), class, served
 }
+
+var polBlockedOps int
 
 var polKinds = []string{"R", "S", "H", "P", "T"}
 
